@@ -39,7 +39,7 @@ fn main() {
                 println!("{}", p.id);
             }
         }
-        "run" | "replay" => {
+        "run" | "replay" | "digest" => {
             if args.len() < 3 {
                 usage();
             }
@@ -107,6 +107,10 @@ fn main() {
             unsafe { std::env::set_var("FROSTSIM_VERIF_DIR", &opt.verif_dir) };
             let code = if args[1] == "run" {
                 run_property(prop, &opt)
+            } else if args[1] == "digest" {
+                // one run, alone in a fresh process: what the engine compares its in-batch result with
+                let Some(r) = file.as_deref().and_then(|f| f.parse::<u64>().ok()) else { usage() };
+                digest_of_run(prop, &opt, r)
             } else {
                 let Some(f) = file else { usage() };
                 replay(prop, &f, &opt.verif_dir)
